@@ -78,6 +78,28 @@ def check(run):
         m = equiv_json(h, parse_dump(p[3]))
         if m:
             oracle_fail.append((cfg, f"S 0 {d}"[:300], "JSON round trip: " + m, p[3][:200]))
+    # the same round trip through a caller buffer of exactly measureJson() / measureMsgPack() bytes, and one byte more
+    # (the results must be those of the std::string round trips above: o2 for JSON; compared structurally)
+    sub = list(range(0, len(dumps), max(1, len(dumps) // (3000 if thorough else 600))))
+    for fmt in (0, 2):
+        lb = [f"RTB {fmt} {dumps[i]}" for i in sub]
+        ob, crashb = vlib.run_sharded(implD, lb, None, 900, ["CFG " + cfg])
+        if crashb:
+            k = ob.index("<crash>") if "<crash>" in ob else 0
+            run.violation("C07: library crashed in the exact-fit buffer round trip: " + crashb[:200], dict(kind="input", cfg=cfg, harness_src="doc_h", lines=[lb[k][:5000]], observed=crashb[-2500:]))
+        for i, l, o in zip(sub, lb, ob):
+            run.count((cfg, "exact-fit", fmt, i))
+            if o == "<crash>" or o2[i] == "<crash>":
+                continue
+            parts = o.strip().split(" ")
+            ref = o2[i].split(" ")       # code reads fault dump of the std::string round trip
+            for k_ in (0, 3):
+                code, cnt, dmp = parts[k_], parts[k_ + 1], parts[k_ + 2]
+                w, n_ = cnt.split("/")
+                if code != "Ok" or w != n_:
+                    oracle_fail.append((cfg, l[:300], f"exact-fit buffer ({'+1' if k_ else 'exact'}): Ok, count = measure", " ".join(parts[k_:k_ + 3])[:200])); break
+                if fmt == 0 and ref[0] == "Ok" and dmp != ref[3]:
+                    oracle_fail.append((cfg, l[:300], "same document as through std::string: " + ref[3][:150], dmp[:200])); break
     # --- MessagePack round trip, fixpoint
     l3 = [f"S 2 {d}" for d in dumps]
     mism, _, o3 = vlib.correspond(run, model, implD, l3, cfg, "serializeMsgPack")
